@@ -23,7 +23,7 @@ THEOREMS = ['C08_volume_str_counts', 'C08_write_wf', 'C08_prune_preserves_wf',
             'C08_prune_total', 'C08_convert_tail_wf', 'C08_convert_tail_wf_R',
             'C08_print_parse_roundtrip', 'C08_written_text_wf',
             'C08_convert_tail_text_wf_R', 'C08_table_refs_linked',
-            'C08_convert_wf_linked',
+            'C08_convert_wf_linked', 'C08_convert_wf_surfaces_linked',
             'C08_numbers_given', 'C08_numbers_finite', 'C08_words_okb_sound',
             'C08_remove_empty_volumes_ok', 'C08_geomcomp_partition',
             'C08_bc_defined',
